@@ -242,3 +242,88 @@ Theorem interp_token_reported_le T s n items tok k1 k2 :
 Proof.
   intros OK H. destruct (interp_items_ok T s n items OK H) as [Hn F]. apply interp_reported_le; assumption.
 Qed.
+
+(* ------------------------------------------------------------ the byte span of the token *)
+(* Lexer.v measures token spans with blen (N); Span.v with byte_len (nat): the same number *)
+Lemma byte_len_blen s : N.of_nat (byte_len s) = blen s.
+Proof.
+  induction s as [|c s IH]; [reflexivity|]. cbn [byte_len blen]. rewrite Nat2N.inj_add, IH. f_equal.
+  unfold Span.utf8_len, Lexer.utf8_len. destruct (c <? 128)%N; [reflexivity|]. destruct (c <? 2048)%N; [reflexivity|].
+  destruct (c <? 65536)%N; reflexivity.
+Qed.
+
+Lemma all_src_cons it items : all_src (it :: items) = it_src it + all_src items.
+Proof. unfold all_src, source_bytes. cbn [length firstn map fold_right]. reflexivity. Qed.
+
+Lemma take_quotes_len q : forall n s r, take_quotes q n s = Some r -> byte_len s = n * Span.utf8_len q + byte_len r.
+Proof.
+  induction n as [|n IH]; intros s r H; cbn [take_quotes] in H; [injection H as <-; lia|].
+  destruct s as [|c s]; [discriminate|]. destruct (c =? q)%N eqn:E; [|discriminate]. apply N.eqb_eq in E. subst c.
+  apply IH in H. cbn [byte_len]. lia.
+Qed.
+
+Lemma count_prefix_len q : forall s n r, count_prefix q s = (n, r) -> byte_len s = n * Span.utf8_len q + byte_len r.
+Proof.
+  induction s as [|c s IH]; intros n r H; cbn [count_prefix] in H; [injection H as <- <-; reflexivity|].
+  destruct (c =? q)%N eqn:E.
+  - destruct (count_prefix q s) as [m r0] eqn:C. injection H as <- <-. apply N.eqb_eq in E. subst c.
+    cbn [byte_len]. rewrite (IH _ _ eq_refl). lia.
+  - injection H as <- <-. lia.
+Qed.
+
+(* what mq_items consumes: the source bytes of the items and the closing run of n quotes *)
+Lemma mq_items_len T : tables_ok T = true -> forall fuel q n s items r,
+  mq_items T fuel q n s = Some (items, r) -> byte_len s = all_src items + n * Span.utf8_len q + byte_len r.
+Proof.
+  intro OK. induction fuel as [|f IH]; intros q n s items r H; [discriminate|].
+  cbn [mq_items] in H. destruct (take_quotes q n s) as [r0|] eqn:TQ.
+  - injection H as <- <-. rewrite (take_quotes_len _ _ _ _ TQ). reflexivity.
+  - destruct s as [|c r0]; [discriminate|]. destruct (N.eqb c 92) eqn:B.
+    + apply N.eqb_eq in B. subst c. destruct (p_escape T r0) as [e r'] eqn:E.
+      destruct (mq_items T f q n r') as [[b r'']|] eqn:M; [|discriminate]. injection H as <- <-.
+      rewrite all_src_cons. cbn [it_src byte_len]. apply IH in M.
+      assert (exists used, r0 = used ++ r') as (used & ->).
+      { destruct r0 as [|d r1]; [cbn [p_escape] in E; injection E as <- <-; exists []; reflexivity|].
+        destruct (p_escape_width T (d :: r1) e r' OK ltac:(discriminate) E) as (used & U & _). eauto. }
+      rewrite byte_len_app in *. change (Span.utf8_len 92%N) with 1. lia.
+    + destruct (mq_items T f q n r0) as [[b r'']|] eqn:M; [|discriminate]. injection H as <- <-.
+      rewrite all_src_cons. cbn [it_src byte_len]. apply IH in M. lia.
+Qed.
+
+(* Lexer.p_multi_quoted and quoted_items go together: same content, and the consumed bytes are the quotes + the source
+   bytes of the items *)
+Lemma multi_quoted_items T q s : tables_ok T = true ->
+  match p_multi_quoted T q s, quoted_items T q s with
+  | Some (b, r), Some (n, items) =>
+      b = erase items /\ byte_len s = quote_bytes n * Span.utf8_len q + all_src items + byte_len r
+  | None, None => True
+  | _, _ => False
+  end.
+Proof.
+  intro OK. unfold p_multi_quoted, quoted_items. destruct (count_prefix q s) as [n r] eqn:C.
+  pose proof (count_prefix_len _ _ _ _ C) as L. destruct n as [|n]; [exact I|].
+  change (Coq.Init.Nat.even (S n)) with (Nat.even (S n)).
+  assert (quote_bytes (S n) = if Nat.even (S n) then S n else 2 * S n) as QB by reflexivity.
+  destruct (Nat.even (S n)) eqn:Ev.
+  - split; [reflexivity|]. unfold all_src, source_bytes. cbn [length firstn map fold_right]. rewrite QB. lia.
+  - rewrite mq_items_erase. destruct (mq_items T (S (length r)) q (S n) r) as [[b r']|] eqn:M; [|exact I].
+    split; [reflexivity|]. apply (mq_items_len T OK) in M. rewrite QB, <- Nat.mul_assoc. lia.
+Qed.
+
+(* the token: prefix character, opening quotes, source bytes of the content, closing quotes *)
+Theorem interp_token_span T c r0 k r' :
+  tables_ok T = true -> p_interp T (c :: r0) = Some (k, r') ->
+  exists n items, interp_items T r0 = Some (n, items) /\ k = KInterp c (erase items) /\
+    byte_len (c :: r0) = Span.utf8_len c + quote_bytes n + all_src items + byte_len r'.
+Proof.
+  intros OK H. cbn [p_interp] in H. destruct (c_in c (t_interp T)); [|discriminate].
+  unfold p_quoted, orelse in H. unfold interp_items.
+  pose proof (multi_quoted_items T 34%N r0 OK) as M1. pose proof (multi_quoted_items T 39%N r0 OK) as M2.
+  destruct (p_multi_quoted T 34%N r0) as [[b r]|].
+  - destruct (quoted_items T 34%N r0) as [[n items]|]; [|contradiction]. destruct M1 as [-> L].
+    injection H as <- <-. exists n, items. repeat split. cbn [byte_len]. change (Span.utf8_len 34%N) with 1 in L. lia.
+  - destruct (quoted_items T 34%N r0) as [[n items]|]; [contradiction|].
+    destruct (p_multi_quoted T 39%N r0) as [[b r]|]; [|discriminate].
+    destruct (quoted_items T 39%N r0) as [[n items]|]; [|contradiction]. destruct M2 as [-> L].
+    injection H as <- <-. exists n, items. repeat split. cbn [byte_len]. change (Span.utf8_len 39%N) with 1 in L. lia.
+Qed.
